@@ -439,7 +439,7 @@ func (r *run) exec() (cerr error, timedOut bool, requests int) {
 	return
 }
 
-func check(c Case, ev *evid.Collector) *evid.Violation {
+func check(c *Case, ev *evid.Collector) *evid.Violation {
 	base := c.Base
 	g := base.Graph
 	classes := []string{"pairing:" + base.Pairing, "pre:" + base.Pre.Mode}
@@ -525,6 +525,8 @@ func check(c Case, ev *evid.Collector) *evid.Violation {
 				ev.Case(false, "")
 			}
 			if r.viol != nil {
+				// pin the failing fault so that the saved case replays it in every tier
+				c.Kinds, c.PosSel, c.AllPos = []string{kind}, []int{k}, false
 				return r.viol
 			}
 		}
@@ -538,7 +540,7 @@ func TestVerifProp(t *testing.T) {
 	ev := evid.For(prop)
 	rapid.Check(t, func(rt *rapid.T) {
 		c := gen(rt)
-		v := evid.Guard(func() *evid.Violation { return check(c, ev) })
+		v := evid.Guard(func() *evid.Violation { return check(&c, ev) })
 		if ev.Report(v, c) {
 			rt.Fatalf("%v", v)
 		}
@@ -553,7 +555,7 @@ func TestVerifReplayDir(t *testing.T) {
 			t.Fatalf("%s: %v", f, err)
 		}
 		for i := 0; i < 30; i++ {
-			v := evid.Guard(func() *evid.Violation { return check(c, ev) })
+			v := evid.Guard(func() *evid.Violation { return check(&c, ev) })
 			if ev.Report(v, c) {
 				t.Errorf("%s: %v", f, v)
 				break
@@ -573,7 +575,7 @@ func TestVerifReplay(t *testing.T) {
 		t.Fatal(err)
 	}
 	for i := 0; i < 200; i++ {
-		v := evid.Guard(func() *evid.Violation { return check(c, ev) })
+		v := evid.Guard(func() *evid.Violation { return check(&c, ev) })
 		if ev.Report(v, c) {
 			t.Fatalf("%v", v)
 		}
